@@ -16,6 +16,19 @@ All statements are about the model functions that `drv_c03` executes (`FeatModel
 stored values at column `j`), `rowCols r` its pattern, `SortedCols r` = strictly increasing column indices.
 A product result `R` is the list of the new rows of `X`.  Sums over the stored entries of a row of `D` (and `A`) are the
 dense sums `Σ_k D_ik …` because entries that are not stored are zero.
+
+**What is unbounded here and bounded in the C++.**  Every index, size and counter of the model is an unbounded `Nat`
+and every scalar an exact field element, whereas the code uses `Index` (64 bit), the template index type `IT_`
+(`unsigned int` or `unsigned long`: row pointers, column indices, the loop variables `i, ik, kl, ij, lj` of the three
+products, `shrink`'s per-row counters `std::vector<IT_>`, the diagonal positions `IT_(col)`), `int` block sizes and
+loop variables in the BCSR kernels, `Tiny::Matrix` blocks of fixed size, and `MemoryPool` allocations rounded up to
+multiples of four elements.  The anchored kernels contain no narrower types, no unrolled/tiled loops with remainder
+handling, no scratch arrays of fixed size and no size thresholds (re-read for the boundary-size round), so none of these
+is visible to the theorems; what ties the unbounded model to the bounded types is the correspondence stream
+`boundary-sizes` of `checks/props/c03.py`: rows, row lengths (> 255 entries per row), column indices and storage
+positions just below, at and above 2^7, 2^8, 1000 (thorough: 2^15, 2^16, at `IT_ = unsigned int`) and all residues mod 4,
+with the extreme values, ties, diagonal entries, dropped entries and the missing product column at the high end of the
+range, compared with this model and with the independent oracle.
 -/
 open FeatModel.LA FeatModel.LA.MatAlg FeatModel.Vec
 
